@@ -91,6 +91,14 @@ def jval(v):
         return {'tuple': [jval(x) for x in v]}
     if isinstance(v, fractions.Fraction):
         return float(v)
+    if isinstance(v, Obj):
+        kind = v.clsname
+        if kind == 'BGP':
+            return {'obj': 'P'}
+        d = {'obj': kind}
+        if kind == 'Addr':
+            d.update({'host': v.f.get('host'), 'port': v.f.get('port')})
+        return d
     return v
 
 
@@ -140,7 +148,7 @@ def session_state_request(S, model):
           'conf': {'cfgH': ev(S.cfgH), 'cr_t': ev(S.cr_t), 'ih_t': ev(S.ih_t), 'do_t': ev(S.do_t), 'cfgKA': ev(S.cfgKA),
                    'local_as': ev(S.local_as), 'remote_as': ev(S.remote_as), 'now': float(ev(SNum(S.now))),
                    'rib': ev(S.rib)},
-          'timers': {}}
+          'n_pending': ev(S.n_pending0), 'timers': {}}
     for sh, t in S.timers_pre.items():
         st['timers'][sh] = {'status': ev(t['status']), 'active': ev(t['_active']), 'deadline': float(ev(t['_deadline']))}
     if S.P is not None:
@@ -194,6 +202,7 @@ def heap_view(S, model, effects, updates=None, havoc=None):
                   'fourbytesas': val(S.P, 'fourbytesas'),
                   'sent': {k: val(S.P.f['msg_sent_stat'], k) for k in S.sent},
                   'recv': {k: val(S.P.f['msg_recv_stat'], k) for k in S.recv}})
+    v['n_pending'] = val(S.ghost, 'n_pending')
     v['writes'] = []
     v['lose_calls'] = 0
     v['connects'] = 0
